@@ -900,13 +900,11 @@ type KeySharePrivateKeys struct {
 	MlkemKeys map[CurveID]*mlkem.DecapsulationKey768
 }
 
-// retain records the private key(s) generated for the key share of group, so that the
-// handshake can use them whichever offered share the server selects. The first share of a
-// group wins.
+// retain records the private key(s) just generated for the key share of group, so that the
+// handshake can use them whichever offered share the server selects. It replaces a key an
+// earlier ApplyPreset retained for the group: the share on the wire is the one generated last.
 func (ksp *KeySharePrivateKeys) retain(group CurveID, ecdheKey *ecdh.PrivateKey, mlkemKey *mlkem.DecapsulationKey768) {
-	if _, dup := ksp.EcdheKeys[group]; dup {
-		return
-	}
+	delete(ksp.MlkemKeys, group)
 	if ksp.EcdheKeys == nil {
 		ksp.EcdheKeys = make(map[CurveID]*ecdh.PrivateKey)
 	}
